@@ -134,7 +134,8 @@ def write_rankings(rankings: List[List[Set[Element]]], path: str) -> None:
         if os.path.isdir(os.path.abspath(os.path.join(path, os.pardir))):
             with open(path, "w", encoding='utf-8') as file:
                 for ranking in rankings:
-                    file.write(str(ranking))
+                    # an empty ranking is written [[]]: the line [] would be ignored when the file is read
+                    file.write(str(ranking) if len(ranking) > 0 else "[[]]")
                     file.write("\n")
 
 
